@@ -1,5 +1,6 @@
 (* C18 (whole initialisation)  The source-line initialisation of `fteik2d` (block `if iflag == 2:` of
-   _fteik/_fteik2d.py, generated function `fteik2d_p2`) is equivariant under transposition and under the mirrors.
+   _fteik/_fteik2d.py, generated function `fteik2d_p2`) is equivariant under transposition and under the mirrors,
+   over R, for all sizes, heterogeneous medium, with or without `grad`, and for every `iflag`.
 
    InitSym.v shows that the four loops ("phases" east, west, down, up) are images of one another.  A transposed run
    executes the images of the original's down/up phases BEFORE the images of its east/west phases, a mirrored run
@@ -9,18 +10,25 @@
    1. `Foot W Rd F`: the state transformer `F` (state = (td, tt, ttsgn)) changes the time / sign arrays only at the
       nodes `W` (frame), and its effect on any node set `S` containing `Rd` depends only on the time array on `S`
       (and, for the signs on `S'`, on the signs on `S'`) - in particular not on the scratch line `td`, which every
-      phase seeds itself.  `Foot_comp`, `Foot_commute`.
-   2. Footprints: one block (`cstep_foot`), the loop bodies, the loops, the four phases (`east_foot`, ...).
-   3. `x_z_commute`: (east; west); (down; up) = (down; up); (east; west) on (tt, ttsgn); `east_west_commute`.
-      The final content of `td` differs, and is irrelevant (it is dead after the block).
-   4. Transposition of the whole block: `init_transpose_rel` (relational), `fteik2d_p2_transpose` (generated code,
-      every `iflag`), `fteik2d_p2_transpose_explicit` (with the maps `transpose`, `transpose_sgn`, `transpose_grad`).
+      phase seeds itself.  `Foot_comp`, `Foot_commute` (disjoint write / read sets => the transformers commute).
+   2. Footprints: one block (`cstep_foot`), one iteration (`lbody_*`), a loop (`phase_foot`), the four phases
+      `east_foot`, `west_foot`, `down_foot`, `up_foot` with the sets WE/RE, WW/RW, WD/RD, WU/RU.
+   3. `x_z_commute`: (east; west); (down; up) = (down; up); (east; west) on (tt, ttsgn); `east_west_commute`,
+      `down_up_commute`; `phases_zx`, `phases_wexz` (the code order = the other orders).  The final content of `td`
+      differs between the orders, and is irrelevant: `td` is dead after the block, and `agree` does not compare it.
+   4. Transposition of the whole block: `phases_transpose` (the four loops), `fteik2d_p2_transpose` (generated code,
+      relational form, every `iflag`), `fteik2d_p2_transpose_explicit` (maps `transpose`, `transpose_sgn`,
+      `transpose_grad`, conclusion cell by cell).
    5. x-mirror of the whole block.  Needs two pairings that InitSym does not have: the down / up phase of the
-      x-mirrored problem is the x-mirror of the down / up phase (`down_mirror_x`, `up_mirror_x`); inside one
-      iteration the two blocks (columns xsi+1, xsi) are exchanged, they commute (`Foot_commute` again).
-      `fteik2d_p2_mirror_x`, `fteik2d_p2_mirror_x_explicit`.
-   6. z-mirror = transposition o x-mirror o transposition: `fteik2d_p2_mirror_z_explicit`.
-   7. Non-vacuity: closed instances over R, and the generated function on binary64.
+      x-mirrored problem is the x-mirror of the down / up phase (`down_mirror_x`, `up_mirror_x`).  Inside one
+      iteration of these loops the two blocks (columns xsi+1, xsi) are EXCHANGED by the mirror; they commute
+      (`lbody_swap`, `Foot_commute` again).  `phases_mirror_x`, `fteik2d_p2_mirror_x`, `fteik2d_p2_mirror_x_explicit`.
+      Hypothesis for `iflag = 2`: the source lies in its cell, 0 <= xsa - xsi <= 1 (the code recomputes dxw, dxe).
+   6. z-mirror = transposition o x-mirror o transposition: `fteik2d_p2_mirror_z`, `fteik2d_p2_mirror_z_explicit`.
+   7. Non-vacuity: closed instances over R (`fteik2d_p2_transpose_instance`, `fteik2d_p2_mirror_x_instance`), and the
+      generated function on binary64 (`FloatExample`): transposed / mirrored runs equal the original bit for bit.
+   No commutation turned out to be false: every phase reads only the corner nodes, nodes it wrote itself, `slow` and
+   entries of `td` it wrote itself.
 *)
 From Coq Require Import ZArith List Bool Lia Reals Lra Psatz.
 From FT.lib Require Import Num Arr ArrLemmas.
@@ -1857,9 +1865,9 @@ Proof.
   match type of T2 with _ -> RelTTt _ _ _ (fst (fst ?a)) /\ _ => set (rT' := a) in * end.
   clearbody r r' rT rT'.
   destruct T1 as [T1a T1b].
-  { intros G. destruct (OkT G) as (? & _ & ? & _). split; [apply transpose_grad_rel | apply transpose_sgn_rel]; tauto. }
+  { intros G. destruct (OkT G) as (Og & _ & [Ws Ss] & _). split; [apply transpose_grad_rel, Og | apply transpose_sgn_rel; assumption]. }
   destruct T2 as [T2a T2b].
-  { intros G. destruct (OkT' G) as (? & _ & ? & _). split; [apply transpose_grad_rel | apply transpose_sgn_rel]; tauto. }
+  { intros G. destruct (OkT' G) as (Og & _ & [Ws Ss] & _). split; [apply transpose_grad_rel, Og | apply transpose_sgn_rel; assumption]. }
   destruct S1 as [S1a S1b]; [intros G; destruct (Hok G) as (? & ? & ? & ?); auto|].
   destruct S2 as [S2a S2b]; [intros G; destruct (Hok G) as (? & ? & ? & ?); auto|].
   destruct X as [Xa Xb].
@@ -1877,3 +1885,221 @@ Proof.
     intros G. destruct (S1b G) as [? ?], (S2b G) as [? ?], (T1b G) as [? ?], (T2b G) as [? ?], (Xb G) as [? ?].
     split; [eapply txt_to_z_gr | eapply txt_to_z_sg]; eassumption.
 Qed.
+
+Definition mirror_grad_z (nz nx : Z) (g : arr R) : arr R :=
+  tab3 nz nx 2 (fun i j k => if k =? 0 then Ropp (get 0%R g [nz - 1 - i; j; k]) else get 0%R g [nz - 1 - i; j; k]).
+Lemma fmz3_invol n i j (k : Z) : [n - 1 - (n - 1 - i); j; k] = [i; j; k].
+Proof. repeat f_equal. lia. Qed.
+Lemma mirror_grad_z_rel nz nx g : okG nz nx g -> RelGRz nz nx g (mirror_grad_z nz nx g).
+Proof.
+  intros Og. pose proof Og as [W S]. destruct (shape3_nonneg g _ _ _ W S).
+  apply RelGRz_intro; [exact Og | split; [apply wf_tab3; lia | reflexivity]|].
+  intros i j k Hi Hj Hk. unfold mirror_grad_z. rewrite get_tab3 by lia. rewrite fmz3_invol. reflexivity.
+Qed.
+Lemma mirror_z_cells nz nx (grad : bool) (a a' g g' : arr R) (s s' : arr Z) :
+  RelTTz nz nx a a' -> (grad = true -> RelGRz nz nx g g' /\ RelSGz nz nx s s') ->
+  (forall i j, 0 <= i < nz -> 0 <= j < nx -> get 0%R a' [i; j] = get 0%R a [nz - 1 - i; j]) /\
+  (grad = true -> forall i j, 0 <= i < nz -> 0 <= j < nx ->
+     get 0%R g' [i; j; 0] = Ropp (get 0%R g [nz - 1 - i; j; 0]) /\
+     get 0%R g' [i; j; 1] = get 0%R g [nz - 1 - i; j; 1] /\
+     get 0 s' [i; j; 0] = - get 0 s [nz - 1 - i; j; 0] /\
+     get 0 s' [i; j; 1] = get 0 s [nz - 1 - i; j; 1]).
+Proof.
+  intros HT HR. split.
+  - intros i j Hi Hj. apply (relTTz_get nz nx _ _ (nz - 1 - i) i j HT); lia.
+  - intros G i j Hi Hj. destruct (HR G) as [HG HS].
+    pose proof (relGRz_get nz nx _ _ (nz - 1 - i) j 0 HG ltac:(lia) Hj ltac:(lia)) as Q0.
+    pose proof (relGRz_get nz nx _ _ (nz - 1 - i) j 1 HG ltac:(lia) Hj ltac:(lia)) as Q1.
+    pose proof (relSGz_get nz nx _ _ (nz - 1 - i) i j 0 HS ltac:(lia) Hj ltac:(lia) ltac:(lia)) as Q2.
+    pose proof (relSGz_get nz nx _ _ (nz - 1 - i) i j 1 HS ltac:(lia) Hj ltac:(lia) ltac:(lia)) as Q3.
+    rewrite fmz3_invol in Q0, Q1.
+    split; [exact Q0|]. split; [exact Q1|]. split; [exact Q2 | exact Q3].
+Qed.
+
+(* EXPLICIT FORM of the z-mirror *)
+Theorem fteik2d_p2_mirror_z_explicit nz nx (dx dz : R) grad iflag slow tt tg tg' sg sg' (vzero xsa : R) xsi (zsa : R) zsi :
+  (iflag = 2 -> 0 <= zsi < nz - 1 /\ 0 <= xsi < nx - 1 /\ (0 <= zsa - IZR zsi <= 1)%R) ->
+  (iflag <> 2 -> 0 <= ntrunc zsa < nz /\ 0 <= ntrunc xsa < nx /\ exists k, zsa = IZR k) ->
+  okT (nz - 1) (nx - 1) slow -> okT nz nx tt ->
+  (grad = true -> okG nz nx tg /\ okS nz nx sg /\ tg' = mirror_grad_z nz nx tg /\ sg' = mirror_sgn_z nz nx sg) ->
+  let r := fteik2d_p2 dx dz grad iflag nx nz slow tt tg sg vzero xsa xsi zsa zsi in
+  let r' := fteik2d_p2 dx dz grad iflag nx nz (mirror_z (nz - 1) (nx - 1) slow) (mirror_z nz nx tt) tg' sg'
+              vzero xsa xsi (IZR (nz - 1) - zsa)%R (nz - 2 - zsi) in
+  (forall i j, 0 <= i < nz -> 0 <= j < nx -> get 0%R (fst (fst r')) [i; j] = get 0%R (fst (fst r)) [nz - 1 - i; j]) /\
+  (grad = true -> forall i j, 0 <= i < nz -> 0 <= j < nx ->
+     get 0%R (snd (fst r')) [i; j; 0] = Ropp (get 0%R (snd (fst r)) [nz - 1 - i; j; 0]) /\
+     get 0%R (snd (fst r')) [i; j; 1] = get 0%R (snd (fst r)) [nz - 1 - i; j; 1] /\
+     get 0 (snd r') [i; j; 0] = - get 0 (snd r) [nz - 1 - i; j; 0] /\
+     get 0 (snd r') [i; j; 1] = get 0 (snd r) [nz - 1 - i; j; 1]).
+Proof.
+  intros H2 Hn Osl Ht Hg r r'. destruct (okT_nonneg _ _ _ Ht) as [N1 N2]. destruct (okT_nonneg _ _ _ Osl) as [N3 N4].
+  assert (Hn' : iflag <> 2 -> 0 <= ntrunc zsa < nz /\ 0 <= ntrunc xsa < nx /\
+                 ntrunc (IZR (nz - 1) - zsa)%R = nz - 1 - ntrunc zsa).
+  { intros N. destruct (Hn N) as (? & ? & k & Ek). split; [assumption|]. split; [assumption|].
+    rewrite Ek. apply ntrunc_mirror_int. }
+  assert (H : RelTTz nz nx (fst (fst r)) (fst (fst r')) /\
+              (grad = true -> RelGRz nz nx (snd (fst r)) (snd (fst r')) /\ RelSGz nz nx (snd r) (snd r'))).
+  { apply (fteik2d_p2_mirror_z nz nx dx dz grad iflag slow (mirror_z (nz - 1) (nx - 1) slow) tt (mirror_z nz nx tt)
+              tg tg' sg sg' vzero xsa xsi zsa (IZR (nz - 1) - zsa)%R zsi (nz - 2 - zsi) H2 Hn' eq_refl eq_refl Osl).
+    - split; [apply wf_tab2; lia | reflexivity].
+    - exact Ht.
+    - split; [apply wf_tab2; lia | reflexivity].
+    - intros G. destruct (Hg G) as (? & ? & -> & ->).
+      split; [assumption|]. split; [split; [apply wf_tab3; lia | reflexivity]|].
+      split; [assumption | split; [apply wf_tab3; lia | reflexivity]].
+    - apply mirror_z_slow_rel; apply Osl.
+    - apply mirror_z_rel; apply Ht.
+    - intros G. destruct (Hg G) as (Og & [Ws Ss] & -> & ->).
+      split; [apply mirror_grad_z_rel, Og | apply mirror_sgn_z_rel; assumption]. }
+  clearbody r r'. exact (mirror_z_cells nz nx grad _ _ _ _ _ _ (proj1 H) (proj2 H)).
+Qed.
+
+(* ========================================================================================== *)
+(* 9. non-vacuity                                                                               *)
+(* ========================================================================================== *)
+(* closed instances: 4 x 4 nodes, heterogeneous medium, source cell (1, 1), any spacings / source position *)
+Section Instances.
+Variables (dx dz vzero xsa zsa : R).
+Definition ex_slow : arr R := mkarr [3; 3] [1; 9 / 8; 5 / 4; 7 / 8; 1; 11 / 8; 9 / 8; 3 / 4; 1]%R.
+Definition ex_tt : arr R := full [4; 4] Big.
+Definition ex_tg : arr R := full [4; 4; 2] 0%R.
+Definition ex_sg : arr Z := full [4; 4; 2] 0.
+
+Lemma ex_slow_ok : okT 3 3 ex_slow.
+Proof. split; [split; [reflexivity | repeat constructor; lia] | reflexivity]. Qed.
+Lemma ex_tt_ok : okT 4 4 ex_tt.
+Proof. split; [apply wf_full; repeat constructor; lia | reflexivity]. Qed.
+Lemma ex_tg_ok : okG 4 4 ex_tg.
+Proof. split; [apply wf_full; repeat constructor; lia | reflexivity]. Qed.
+Lemma ex_sg_ok : okS 4 4 ex_sg.
+Proof. split; [apply wf_full; repeat constructor; lia | reflexivity]. Qed.
+
+Example fteik2d_p2_transpose_instance :
+  let r := fteik2d_p2 dx dz true 2 4 4 ex_slow ex_tt ex_tg ex_sg vzero xsa 1 zsa 1 in
+  let r' := fteik2d_p2 dz dx true 2 4 4 (transpose 3 3 ex_slow) (transpose 4 4 ex_tt) (transpose_grad 4 4 ex_tg)
+              (transpose_sgn 4 4 ex_sg) vzero zsa 1 xsa 1 in
+  forall i j, 0 <= i < 4 -> 0 <= j < 4 ->
+    get 0%R (fst (fst r')) [j; i] = get 0%R (fst (fst r)) [i; j] /\
+    get 0 (snd r') [j; i; 1] = get 0 (snd r) [i; j; 0] /\ get 0 (snd r') [j; i; 0] = get 0 (snd r) [i; j; 1].
+Proof.
+  intros r r' i j Hi Hj.
+  destruct (fteik2d_p2_transpose_explicit 4 4 dx dz true 2 ex_slow ex_tt ex_tg (transpose_grad 4 4 ex_tg) ex_sg
+              (transpose_sgn 4 4 ex_sg) vzero xsa 1 zsa 1) as [HT HG].
+  - intros _. lia.
+  - intros N. exfalso. apply N. reflexivity.
+  - apply ex_slow_ok.
+  - reflexivity.
+  - apply ex_tt_ok.
+  - intros _. split; [apply ex_tg_ok|]. split; [apply ex_sg_ok|]. split; reflexivity.
+  - change (4 - 1) with 3 in HT, HG. fold r r' in HT, HG. clearbody r r'. destruct (HG eq_refl i j Hi Hj) as (_ & _ & Q2 & Q3).
+    split; [apply HT; assumption|]. split; assumption.
+Qed.
+
+Example fteik2d_p2_mirror_x_instance :
+  (0 <= xsa - 1 <= 1)%R ->
+  let r := fteik2d_p2 dx dz true 2 4 4 ex_slow ex_tt ex_tg ex_sg vzero xsa 1 zsa 1 in
+  let r' := fteik2d_p2 dx dz true 2 4 4 (mirror_x 3 3 ex_slow) (mirror_x 4 4 ex_tt) (mirror_grad_x 4 4 ex_tg)
+              (mirror_sgn_x 4 4 ex_sg) vzero (3 - xsa)%R 1 zsa 1 in
+  forall i j, 0 <= i < 4 -> 0 <= j < 4 ->
+    get 0%R (fst (fst r')) [i; j] = get 0%R (fst (fst r)) [i; 3 - j] /\
+    get 0 (snd r') [i; j; 0] = get 0 (snd r) [i; 3 - j; 0] /\ get 0 (snd r') [i; j; 1] = - get 0 (snd r) [i; 3 - j; 1].
+Proof.
+  intros Hin r r' i j Hi Hj.
+  destruct (fteik2d_p2_mirror_x_explicit 4 4 dx dz true 2 ex_slow ex_tt ex_tg (mirror_grad_x 4 4 ex_tg) ex_sg
+              (mirror_sgn_x 4 4 ex_sg) vzero xsa 1 zsa 1) as [HT HG].
+  - intros _. split; [lia|]. split; [lia | exact Hin].
+  - intros N. exfalso. apply N. reflexivity.
+  - apply ex_slow_ok.
+  - reflexivity.
+  - apply ex_tt_ok.
+  - intros _. split; [apply ex_tg_ok|]. split; [apply ex_sg_ok|]. split; reflexivity.
+  - change (IZR (4 - 1)) with 3%R in HT, HG. change (4 - 2 - 1) with 1 in HT, HG. change (4 - 1) with 3 in HT, HG.
+    fold r r' in HT, HG. clearbody r r'. destruct (HG eq_refl i j Hi Hj) as (_ & _ & Q2 & Q3).
+    split; [apply HT; assumption|]. split; assumption.
+Qed.
+End Instances.
+
+(* the generated function evaluated on binary64: heterogeneous medium, dz <> dx, source inside cell (1, 1) of a 4 x 4
+   grid (all four loops write, see InitSym.FloatExample.four_loops_write).  On this instance the transposed, the
+   x-mirrored and the z-mirrored runs reproduce the original run bit for bit, cell by cell (times, signs, and the
+   gradient components written by the corner assignments). *)
+Module FloatExample.
+Import PrimFloat.
+Definition f_slow : arr float := mkarr [3; 3] [1.0; 1.125; 1.25; 0.875; 1.0; 1.375; 1.125; 0.75; 1.0]%float.
+Definition f_slow_t : arr float := mkarr [3; 3] [1.0; 0.875; 1.125; 1.125; 1.0; 0.75; 1.25; 1.375; 1.0]%float.
+Definition f_slow_x : arr float := mkarr [3; 3] [1.25; 1.125; 1.0; 1.375; 1.0; 0.875; 1.0; 0.75; 1.125]%float.
+Definition f_slow_z : arr float := mkarr [3; 3] [1.125; 0.75; 1.0; 0.875; 1.0; 1.375; 1.0; 1.125; 1.25]%float.
+Definition f_tt : arr float := full [4; 4] Big.
+Definition f_tg : arr float := full [4; 4; 2] 0%float.
+Definition f_sg : arr Z := full [4; 4; 2] 0.
+(* dx = 2, dz = 1, source at (zsa, xsa) = (1.375, 1.25) *)
+Definition run := fteik2d_p2 (T := float) 2.0%float 1.0%float true 2 4 4 f_slow f_tt f_tg f_sg 1.0%float 1.25%float 1 1.375%float 1.
+Definition run_t := fteik2d_p2 (T := float) 1.0%float 2.0%float true 2 4 4 f_slow_t f_tt f_tg f_sg 1.0%float 1.375%float 1 1.25%float 1.
+Definition run_x := fteik2d_p2 (T := float) 2.0%float 1.0%float true 2 4 4 f_slow_x f_tt f_tg f_sg 1.0%float 1.75%float 1 1.375%float 1.
+Definition run_z := fteik2d_p2 (T := float) 2.0%float 1.0%float true 2 4 4 f_slow_z f_tt f_tg f_sg 1.0%float 1.25%float 1 1.625%float 1.
+Definition cells : list (Z * Z) := flat_map (fun i => map (fun j => (i, j)) [0; 1; 2; 3]) [0; 1; 2; 3].
+Definition feq (a b : float) : bool := PrimFloat.eqb a b.
+Definition tt_of (r : arr float * arr float * arr Z) := fst (fst r).
+Definition tg_of (r : arr float * arr float * arr Z) := snd (fst r).
+Definition sg_of (r : arr float * arr float * arr Z) := snd r.
+
+(* the three media are the images of `f_slow` *)
+Example slow_images :
+  forallb (fun '(i, j) => if (i <? 3) && (j <? 3)
+                          then feq (get 0%float f_slow_t [j; i]) (get 0%float f_slow [i; j])
+                               && feq (get 0%float f_slow_x [i; 2 - j]) (get 0%float f_slow [i; j])
+                               && feq (get 0%float f_slow_z [2 - i; j]) (get 0%float f_slow [i; j])
+                          else true) cells = true.
+Proof. vm_compute. reflexivity. Qed.
+
+Example transpose_binary64 :
+  forallb (fun '(i, j) =>
+    feq (get 0%float (tt_of run_t) [j; i]) (get 0%float (tt_of run) [i; j]) &&
+    (get 0 (sg_of run_t) [j; i; 1] =? get 0 (sg_of run) [i; j; 0]) && (get 0 (sg_of run_t) [j; i; 0] =? get 0 (sg_of run) [i; j; 1]) &&
+    feq (get 0%float (tg_of run_t) [j; i; 1]) (get 0%float (tg_of run) [i; j; 0]) &&
+    feq (get 0%float (tg_of run_t) [j; i; 0]) (get 0%float (tg_of run) [i; j; 1])) cells = true.
+Proof. vm_compute. reflexivity. Qed.
+
+Example mirror_x_binary64 :
+  forallb (fun '(i, j) =>
+    feq (get 0%float (tt_of run_x) [i; 3 - j]) (get 0%float (tt_of run) [i; j]) &&
+    (get 0 (sg_of run_x) [i; 3 - j; 0] =? get 0 (sg_of run) [i; j; 0]) && (get 0 (sg_of run_x) [i; 3 - j; 1] =? - get 0 (sg_of run) [i; j; 1]) &&
+    feq (get 0%float (tg_of run_x) [i; 3 - j; 0]) (get 0%float (tg_of run) [i; j; 0]) &&
+    feq (get 0%float (tg_of run_x) [i; 3 - j; 1]) (PrimFloat.opp (get 0%float (tg_of run) [i; j; 1]))) cells = true.
+Proof. vm_compute. reflexivity. Qed.
+
+Example mirror_z_binary64 :
+  forallb (fun '(i, j) =>
+    feq (get 0%float (tt_of run_z) [3 - i; j]) (get 0%float (tt_of run) [i; j]) &&
+    (get 0 (sg_of run_z) [3 - i; j; 0] =? - get 0 (sg_of run) [i; j; 0]) && (get 0 (sg_of run_z) [3 - i; j; 1] =? get 0 (sg_of run) [i; j; 1]) &&
+    feq (get 0%float (tg_of run_z) [3 - i; j; 0]) (PrimFloat.opp (get 0%float (tg_of run) [i; j; 0])) &&
+    feq (get 0%float (tg_of run_z) [3 - i; j; 1]) (get 0%float (tg_of run) [i; j; 1])) cells = true.
+Proof. vm_compute. reflexivity. Qed.
+
+(* and the runs are not trivial: 12 of the 16 nodes get a time below Big *)
+Example run_writes : length (filter (fun '(i, j) => nltb (get 0%float (tt_of run) [i; j]) Big) cells) = 12%nat.
+Proof. vm_compute. reflexivity. Qed.
+End FloatExample.
+
+(* ========================================================================================== *)
+Print Assumptions east_foot.
+Print Assumptions west_foot.
+Print Assumptions down_foot.
+Print Assumptions up_foot.
+Print Assumptions x_z_commute.
+Print Assumptions east_west_commute.
+Print Assumptions down_up_commute.
+Print Assumptions phases_zx.
+Print Assumptions phases_transpose.
+Print Assumptions fteik2d_p2_transpose.
+Print Assumptions fteik2d_p2_transpose_explicit.
+Print Assumptions down_mirror_x.
+Print Assumptions up_mirror_x.
+Print Assumptions phases_mirror_x.
+Print Assumptions fteik2d_p2_mirror_x.
+Print Assumptions fteik2d_p2_mirror_x_explicit.
+Print Assumptions fteik2d_p2_mirror_z.
+Print Assumptions fteik2d_p2_mirror_z_explicit.
+Print Assumptions fteik2d_p2_transpose_instance.
+Print Assumptions fteik2d_p2_mirror_x_instance.
+Print Assumptions FloatExample.transpose_binary64.
